@@ -11,7 +11,7 @@ from rv import oracles as O, gen
 
 LEVEL = "exploration"
 RULE = ("bounded-exhaustive: every sum vector of 1..5 bins over 0..G (G = 4 quick, 6 thorough; sharded) x {list, tuple, ndarray} x every permutation class (as given, sorted, reversed) x "
-        "5 sum-based objectives (k from 1 to bins+2) + weighted objective; random vectors up to 2^49 with up to 9 bins, and lists/tuples of Python ints around 2^53..2^70 compared exactly; the sorted fast path is compared on truly sorted input; "
+        "5 sum-based objectives (k from 1 to bins+2) + weighted objective; random vectors up to 2^49 with up to 9 bins, and lists/tuples of Python ints around 2^53..2^70 compared exactly; in-place histories (one list / ndarray updated in place between evaluations by the same objective instance); the sorted fast path is compared on truly sorted input; "
         "in situ: the value contract runs on every numeric evaluation made by dp / complete greedy on generated instances; non-trivial = >= 2 distinct sums given unsorted; "
         "distinct on (objective, k/weights, container type, vector, flag)")
 ASSUMPTIONS = ["weighted objective with the sorted flag may raise (documented refusal) or return the correct value", "ILP passes solver expressions to value_to_minimize: skipped by the in-situ contract (non-numeric)"]
@@ -23,6 +23,9 @@ def plan(tier, seed):
     n = 16 if tier == "quick" else 48
     b = 15 if tier == "quick" else 60
     return [{"seed": seed * 1000 + i, "shard": i, "nshards": n, "budget_s": b, "grid_max": 4 if tier == "quick" else 6, "watchdog_s": b * 6 + 200} for i in range(n)]
+
+
+_OBJ_CACHE = {}
 
 
 def container(vec, kind):
@@ -40,7 +43,11 @@ def judge(case, ctx):
     A = C.algos()
     ctx.evaluated()
     name, kp, wts, vec, kind, flag = case["objective"], case.get("k"), case.get("weights"), case["vec"], case["kind"], case["flag"]
-    objective = A.objective(name, kp, wts)
+    # the same objective INSTANCE serves all calls with the same parameters in this shard (an instance that remembers something between calls would show)
+    okey = (name, kp, tuple(wts or ()))
+    objective = _OBJ_CACHE.get(okey)
+    if objective is None:
+        objective = _OBJ_CACHE[okey] = A.objective(name, kp, wts)
     want = O.objval(name, vec, kp, wts)
     sums = container(vec, kind)
     try:
@@ -63,6 +70,37 @@ def judge(case, ctx):
     unsorted_distinct = len(set(vec)) >= 2 and list(vec) != sorted(vec)
     ctx.held(key=(name, kp, tuple(wts or ()), kind, tuple(vec), flag), nontrivial=unsorted_distinct or (flag and len(set(vec)) >= 2),
              cls=f"{name}/{kind}/{'sortedflag' if flag else 'noflag'}", sample={"case": case, "value": float(got)})
+
+
+def judge_history(case, ctx):
+    """
+    One mutable container (list / ndarray), one objective instance: evaluate, update the container IN PLACE, evaluate again ... - every value must be the documented
+    function of the CURRENT contents (an objective that remembers the previous vector shows here).
+    """
+    A = C.algos()
+    ctx.evaluated()
+    name, kp = case["objective"], case.get("k")
+    okey = (name, kp, ())
+    objective = _OBJ_CACHE.get(okey)
+    if objective is None:
+        objective = _OBJ_CACHE[okey] = A.objective(name, kp)
+    sums = container(case["vec"], case["kind"])
+    cur = list(case["vec"])
+    for step, (i, v) in enumerate([(None, None)] + [tuple(m) for m in case["mutations"]]):
+        if i is not None:
+            sums[i] = v
+            cur[i] = v
+        try:
+            got = objective.value_to_minimize(sums)
+        except Exception as e:
+            ctx.violation("exception", name, case, {"exc": repr(e)[:200], "step": step})
+            return
+        want = O.objval(name, cur, kp)
+        if F(float(got)) != F(want):
+            ctx.violation("value_after_in_place_update_differs", name, case, {"step": step, "current_vector": cur, "got": float(got), "want": float(want)})
+            return
+    ctx.held(key=("hist", name, kp, case["kind"], tuple(case["vec"]), repr(case["mutations"])), nontrivial=len(set(case["vec"])) >= 2, cls=f"{name}/{case['kind']}/in_place_history",
+             sample={"case": case})
 
 
 def cases_for(vec, rng, kinds=("list", "tuple", "ndarray", "ndarray_f")):
@@ -125,6 +163,12 @@ def run_shard(spec, rng, ctx):
         for case in cases_for(vec, rng):
             judge(case, ctx)
         ctx.counters["random_vectors"] += 1
+        # the same container updated in place between evaluations by the same objective instance
+        if len(vec) >= 2:
+            name = rng.choice(NAMES)
+            judge_history({"objective": name, "k": rng.randint(1, len(vec) + 1) if name in ("ksmall", "klarge") else None, "vec": [min(v, 10 ** 6) for v in vec],
+                           "kind": rng.choice(["list", "ndarray", "ndarray_f"]),
+                           "mutations": [[rng.randrange(len(vec)), rng.randint(0, 1000)] for _ in range(rng.randint(1, 4))]}, ctx)
         # arbitrary-precision integer sums (lists / tuples of Python ints around and beyond 2^63): the documented quantity is still exact there
         base = 2 ** rng.choice([53, 60, 62, 63, 64, 70])
         vec = [base + rng.randint(-3, 50) if rng.random() < 0.8 else rng.randint(0, 1000) for _ in range(rng.randint(1, 6))]
@@ -135,7 +179,9 @@ def run_shard(spec, rng, ctx):
 
 
 def replay(case, ctx):
-    if "objective" in case and "vec" in case:
+    if "mutations" in case:
+        judge_history(case, ctx)
+    elif "objective" in case and "vec" in case:
         judge(case, ctx)
     else:
         from rv.monitors import Contracts
